@@ -19,18 +19,20 @@
                            MLeft   session ended by `StDisconnect slot`, the client has not run a frame since
                            MStale  `StStop` while the slot was live, no `StDisconnect slot` yet (the model's `StStop`
                                    does NOT change the status of the clients: the script disconnects them)
-     sessions_ok script    (1) every `StConnect slot` finds the slot MClean or MLive: after a session end there is a
-                               `StDisconnect slot` and then a `StCFrame slot _` before the next `StConnect slot`;
-                           (2) no `StStart` while a slot is MStale.
+     sessions_ok script    every `StConnect slot` finds the slot MClean or MLive: after a session end there is a
+                           `StDisconnect slot` and then a `StCFrame slot _` before the next `StConnect slot`
      script_okf script     = legal script && no_smap script && sessions_ok script
      ends_session slot st  st is `StStop` or `StDisconnect slot`
      erun_s / ghost_step_s the run with the ghost of C03V (per authorized slot the structure obtained by applying every
                            update message sent so far); `StDisconnect` and the reset of a stopped server drop the slot,
                            so the ghost of a slot restarts from [] at every connect
    The C03 statement is proved for MClean / MLive slots.  For MLeft / MStale slots the client may still hold the
-   structure of the session that ended while the server has forgotten it (C03F_ex_run shows such a moment): proved
-   are the client-local invariants and that nothing is queued (C03F_left, C03F_stale); the next `StCFrame` after the
-   `StDisconnect` makes the slot MClean (C03F_left_then_frame, C03F_clean: the structure is empty again). *)
+   structure of the session that ended while the server has forgotten it (C03F_ex_run shows such a moment), or, for a
+   MStale slot of a server that is started again without having run a frame while stopped, the server still sends to
+   a client that missed messages (C03F_ex_stale_slot, C09_witness_restart_between_frames): proved are the client-local
+   invariants (C03F_left, C03F_stale); the next `StCFrame` after the `StDisconnect` makes the slot MClean
+   (C03F_left_then_frame, C03F_clean: the structure is empty again).  Nothing is assumed about MStale slots: the other
+   slots keep their guarantees whatever happens to them. *)
 From RV Require Import Lib.Res Repl.ClientTicks Repl.World Vis.Visibility Repl.Server Repl.ServerSpec
   Repl.StructSpec Repl.StructVisSpec Repl.StructVisRun_proofs Repl.Client Repl.Sys Repl.Client_proofs Repl.ClientStructSpec Repl.ClientStruct_proofs
   Repl.ClientSys_proofs Repl.StructE2E_proofs Repl.StructE2EMut_proofs Repl.StructE2EVis_proofs Repl.StructE2ESess_proofs.
@@ -176,7 +178,7 @@ Theorem C03F_stale : forall cfg0 nclients script y slot c,
   script_okf script = true -> tick_frames script < 2 ^ 31 ->
   run (sys_init cfg0 nclients) script = Ok y -> al_get slot (y_clients y) = Some c ->
   mode_of script slot = MStale ->
-  sv_running (y_server y) = false /\ cs_inv c /\ l_upd (get_link y slot) = [] /\ l_mut (get_link y slot) = [].
+  cs_inv c /\ (cl_status c = Disconnected -> struct_equiv (client_struct c) [] /\ find_client (y_server y) slot = None).
 Proof. exact f_stale. Qed.
 
 (* ---- 3. G1 in the vocabulary of C03E: single-session scripts (`script_okm`), the ghost `erun` of C03E, every policy ---- *)
@@ -406,7 +408,7 @@ Example C03F_ex_check : c03_check fx_bl 2 fx_script 0 = true /\ c03_check fx_wl 
                         c03_check fx_wl 2 fx_stop 0 = true.
 Proof. vm_compute. repeat split; reflexivity. Qed.
 
-(* W1. quick reconnect, no client frame between `StDisconnect 0` and `StConnect 0` (premise (1)): the client's `reset`
+(* W1. quick reconnect, no client frame between `StDisconnect 0` and `StConnect 0`: the client's `reset`
        never runs, the entity map of the old session survives into the new one.  Entity 1 was despawned between the
        sessions; the client holds {1, 2} for ever, the server replicates {2}.  With the client frame in between
        (w_quick_ok) the statement holds.  (C09_witness_reconnect_between_frames is the same scenario for values.) *)
@@ -430,8 +432,8 @@ Example C03F_witness_quick_reconnect :
 Proof. vm_compute. repeat split; reflexivity. Qed.
 
 (* W2. `StStop` does not disconnect the clients in the model (the harness scripts do it with `StDisconnect`): a client
-       that is never disconnected keeps its maps through stop / reset / restart / `StConnect` (premise (1), the slot is
-       MStale at the `StConnect`); with `StDisconnect 0; StCFrame 0` after the stop the statement holds *)
+       that is never disconnected keeps its maps through stop / reset / restart / `StConnect` (the slot is MStale at the
+       `StConnect`); with `StDisconnect 0; StCFrame 0` after the stop the statement holds *)
 Definition w_stop : list step :=
   [StStart; StConnect 0 1200; fsfr true [SSpawn 1 true [(0, VNat 1)]]; StDeliver 0 true 0 All; StCFrame 0 [];
    StStop; fsfr false [SDespawn 1]; StCFrame 0 []; StStart; StConnect 0 1200; fsfr true [SSpawn 2 true [(0, VNat 2)]];
@@ -448,18 +450,21 @@ Example C03F_witness_stop_without_disconnect :
   script_okf w_stop_ok = true /\ c03_check fx_all 1 w_stop_ok 0 = true.
 Proof. vm_compute. repeat split; reflexivity. Qed.
 
-(* W3. `StStop` immediately followed by `StStart` while the client is still connected (premise (2); this is
-       C09_witness_restart_between_frames): the server's `reset` never runs, the record of the slot survives, but the
-       update message that carried entity 1 died with the link: the client holds {2}, the server replicated {1, 2}
-       to it at that tick *)
+(* W3. why nothing is claimed for a MStale slot.  `StStop` immediately followed by `StStart` while the client is still
+       connected (this is C09_witness_restart_between_frames): the server's `reset` never runs, the record of the slot
+       survives, but the update message that carried entity 1 died with the link: the client holds {2}, the server
+       replicated {1, 2} to it at that tick.  The script satisfies [sessions_ok] (the slot is never connected again);
+       slot 1, connected after the restart, has its guarantee (C03F_every_moment applies to it). *)
 Definition w_restart : list step :=
   [StStart; StConnect 0 1200; fsfr true [SSpawn 1 true [(0, VNat 1)]];
-   StStop; StStart; fsfr true [SSpawn 2 true [(0, VNat 2)]];
-   StDeliver 0 true 0 All; StCFrame 0 []].
+   StStop; StStart; StConnect 1 1200; fsfr true [SSpawn 2 true [(0, VNat 2)]];
+   StDeliver 0 true 0 All; StCFrame 0 []; StDeliver 1 true 0 All; StCFrame 1 []].
 
-Example C03F_witness_restart_without_frame :
-  legal w_restart = true /\ no_smap w_restart = true /\ sessions_ok w_restart = false /\ c03_check fx_all 1 w_restart 0 = false /\
-  fx_view w_restart (run (sys_init fx_all 1) w_restart)
-    = Some ([(0, MStale, Connected, 2, [(2, [0])], 0%nat, 0%nat, 0%nat)], [(0, [(1, [0]); (2, [0])])], 2) /\
-  sessions_ok c09_w2 = false.
+Example C03F_ex_stale_slot :
+  script_okf w_restart = true /\ c03_check fx_all 2 w_restart 0 = false /\ c03_check fx_all 2 w_restart 1 = true /\
+  fx_view w_restart (run (sys_init fx_all 2) w_restart)
+    = Some ([(0, MStale, Connected, 2, [(2, [0])], 0%nat, 0%nat, 0%nat);
+             (1, MLive, Connected, 2, [(1, [0]); (2, [0])], 0%nat, 0%nat, 0%nat)],
+            [(0, [(1, [0]); (2, [0])]); (1, [(1, [0]); (2, [0])])], 2) /\
+  sessions_ok c09_w2 = true.
 Proof. vm_compute. repeat split; reflexivity. Qed.
